@@ -41,6 +41,11 @@ def find_component(text, comp, pos):
         i = text.find(pat, pos)
         if i >= 0 and (best < 0 or i < best):
             best = i
+    if best < 0:
+        # any other way of naming the component (the statement does not prescribe the quoting): a whole-token occurrence
+        m = _re.compile(r'(?<![\w])' + _re.escape(c) + r'(?![\w])').search(text, pos)
+        if m:
+            best = m.start()
     return best
 
 
